@@ -695,3 +695,450 @@ Proof.
   { change 0 with (inject_Z 0). rewrite <- Zle_Qle. pose proof (zlen_pos vs Hne). lia. }
   nra.
 Qed.
+
+(* ---- sorting -------------------------------------------------------------------------------- *)
+Lemma sortQ_perm : forall l, Permutation l (sortQ l).
+Proof. exact QSort.Permuted_sort. Qed.
+
+Lemma sortQ_in : forall l x, In x (sortQ l) <-> In x l.
+Proof.
+  intros l x. split; intros H.
+  - apply (Permutation_in x (Permutation_sym (sortQ_perm l))). exact H.
+  - apply (Permutation_in x (sortQ_perm l)). exact H.
+Qed.
+
+Lemma sortQ_length : forall l, length (sortQ l) = length l.
+Proof. intros l. symmetry. apply Permutation_length. apply sortQ_perm. Qed.
+
+Lemma sortQ_nonempty : forall l, l <> [] -> sortQ l <> [].
+Proof.
+  intros l H E. apply H. apply length_zero_iff_nil. rewrite <- sortQ_length, E. reflexivity.
+Qed.
+
+Lemma strongly_sorted_nth : forall (R : Q -> Q -> Prop) l,
+  StronglySorted R l -> forall i j, (i < j)%nat -> (j < length l)%nat -> R (nth i l 0) (nth j l 0).
+Proof.
+  intros R l H. induction H as [|a l Hs IH Ha]; intros i j Hij Hj; cbn in Hj; [lia|].
+  destruct j as [|j]; [lia|]. destruct i as [|i]; cbn.
+  - rewrite Forall_forall in Ha. apply Ha. apply nth_In. lia.
+  - apply IH; lia.
+Qed.
+
+Lemma sortQ_sorted_nth : forall l, sorted_nth (sortQ l).
+Proof.
+  intros l i j Hij Hj. destruct (Nat.eq_dec i j) as [->|Hne]; [apply Qle_refl|].
+  assert (T : StronglySorted (fun x y => is_true (Qle_bool x y)) (sortQ l)).
+  { apply QSort.StronglySorted_sort. intros x y z H1 H2. unfold is_true in *. rewrite Qle_bool_iff in *.
+    apply Qle_trans with y; assumption. }
+  pose proof (strongly_sorted_nth _ _ T i j ltac:(lia) Hj) as H. unfold is_true in H. apply Qle_bool_iff. exact H.
+Qed.
+
+(* ---- a key with a single, fresh reservoir --------------------------------------------------- *)
+Lemma Qred_inject_Z : forall n, Qred (inject_Z n) = inject_Z n.
+Proof.
+  intros n. unfold inject_Z, Qred. pose proof (Z.ggcd_gcd n 1) as G. pose proof (Z.ggcd_correct_divisors n 1) as D.
+  destruct (Z.ggcd n 1) as [g [aa bb]]. cbn [fst] in G. rewrite Z.gcd_1_r in G. subst g. destruct D as [D1 D2].
+  assert (Ha : aa = n) by lia. assert (Hb : bb = 1%Z) by lia. clear D1 D2. subst aa bb. reflexivity.
+Qed.
+
+Lemma target_size_one : forall n, (0 <= n <= 2 ^ 53)%Z -> target_size n 1 = n.
+Proof.
+  intros n H. unfold target_size. replace (fdiv 1 (inject_Z 1)) with 1 by (vm_compute; reflexivity).
+  unfold fmul, to_float. rewrite (Qred_complete (inject_Z n * 1) (inject_Z n)) by ring. rewrite Qred_inject_Z.
+  cbn [Qden Qnum inject_Z]. replace (Z.abs n <=? 2 ^ 53)%Z with true by (symmetry; apply Z.leb_le; lia).
+  cbn [Z.eqb Pos.eqb andb]. apply Qfloor_Z.
+Qed.
+
+Lemma downsample_all : forall lst t, lst <> [] -> (zlen lst <= t)%Z -> downsample lst t = lst.
+Proof.
+  intros lst t Hne H. pose proof (zlen_pos lst Hne). unfold downsample.
+  replace (t =? 0)%Z with false by (symmetry; apply Z.eqb_neq; lia).
+  replace (zlen lst <=? t)%Z with true by (symmetry; apply Z.leb_le; lia). rewrite orb_true_r. reflexivity.
+Qed.
+
+Lemma merged_single : forall r,
+  r_data r <> [] -> (zlen (r_data r) <= 2 ^ 53)%Z -> merged_values [r] 1 = sortQ (r_data r).
+Proof.
+  intros r Hne H. unfold merged_values. cbn [map concat]. rewrite target_size_one.
+  - rewrite downsample_all by (assumption || lia). rewrite app_nil_r. reflexivity.
+  - unfold zlen in *. lia.
+Qed.
+
+Lemma key_fold_skip : forall now sel k srcs a,
+  (forall s, In s (keys srcs) -> sel s <> k) -> key_fold now sel k srcs a = ROk a.
+Proof.
+  intros now sel k srcs. induction srcs as [|[s c] r IH]; intros a H; cbn; [reflexivity|].
+  destruct (key_eqb (sel s) k) eqn:E.
+  - apply key_eqb_spec in E. exfalso. apply (H s); [left; reflexivity|exact E].
+  - apply IH. intros s' Hs'. apply H. right. exact Hs'.
+Qed.
+
+Lemma key_fold_single : forall now sel srcs s r,
+  NoDup (keys srcs) -> alookup src_eqb s srcs = Some (Res r) ->
+  (forall s', In s' (keys srcs) -> sel s' = sel s -> s' = s) ->
+  (now - r_last r < MAX_AGG_AGE)%Z ->
+  key_fold now sel (sel s) srcs None = ROk (Some {| a_work := WList [r]; a_count := 1 |}).
+Proof.
+  intros now sel srcs s r. induction srcs as [|[s' c'] rest IH]; intros Hn Hl Hu Hf; cbn in *; [discriminate|].
+  inversion Hn as [|x l Hx Hr]; subst. destruct (src_eqb s s') eqn:E.
+  - apply src_eqb_spec in E. subst s'. inversion Hl; subst c'. rewrite (eqb_refl _ key_eqb_spec). cbn.
+    replace (now - r_last r <? MAX_AGG_AGE)%Z with true by (symmetry; apply Z.ltb_lt; exact Hf). cbn.
+    apply key_fold_skip. intros s2 H2 Hk. assert (s2 = s) by (apply Hu; auto). subst. contradiction.
+  - destruct (key_eqb (sel s') (sel s)) eqn:Ek.
+    + apply key_eqb_spec in Ek. assert (s' = s) by (apply Hu; auto). subst. rewrite (eqb_refl _ src_eqb_spec) in E. discriminate.
+    + apply IH; [exact Hr|exact Hl| |exact Hf]. intros s2 H2. apply Hu. right. exact H2.
+Qed.
+
+Definition pval (vs : list Q) (p : Q) : Q := interp vs (inject_Z (zlen vs - 1) * p).
+
+Lemma pct_list_map : forall vs pcts,
+  vs <> [] -> Forall (fun p => 0 <= p /\ p <= 1) pcts -> pct_list pcts vs = ROk (map (pval vs) pcts).
+Proof.
+  intros vs pcts Hne H. unfold pct_list. induction H as [|p r [H0 H1] Hr IH]; cbn; [reflexivity|].
+  rewrite (percentile_interp vs p Hne H0 H1). cbn. rewrite IH. reflexivity.
+Qed.
+
+Lemma pct_list_nil : forall pcts, pct_list pcts [] = ROk (map (fun _ => 0) pcts).
+Proof.
+  intros pcts. unfold pct_list. induction pcts as [|p r IH]; [reflexivity|]. cbn [rmap map].
+  change (percentile [] p) with (Some 0). cbn [rbind]. rewrite IH. reflexivity.
+Qed.
+
+Lemma avg_not_sum : forall ty, is_avg_type ty = true -> is_sum_type ty = false.
+Proof.
+  intros ty. unfold is_avg_type, is_sum_type, T_AverageTimer, T_AverageRate, T_AggregateTimer, T_Counter, T_Gauge, T_Rate.
+  rewrite orb_true_iff, !Z.eqb_eq. intros [->| ->]; reflexivity.
+Qed.
+
+Lemma agg_metric_single : forall sel now pcts ty srcs out s r,
+  is_avg_type ty = true -> agg_metric sel now pcts ty srcs = ROk out ->
+  NoDup (keys srcs) -> alookup src_eqb s srcs = Some (Res r) ->
+  (forall s', In s' (keys srcs) -> sel s' = sel s -> s' = s) ->
+  (now - r_last r < MAX_AGG_AGE)%Z -> r_data r <> [] -> (zlen (r_data r) <= 2 ^ 53)%Z ->
+  Forall (fun p => 0 <= p /\ p <= 1) pcts ->
+  let vs := sortQ (r_data r) in
+  alookup key_eqb (sel s) out = Some (TPcts (mean vs :: map (pval vs) pcts) (maxabs vs), 1%Z).
+Proof.
+  intros sel now pcts ty srcs out s r Hty H Hn Hl Hu Hf Hne Hlen Hp vs. rewrite agg_metric_unfold in H.
+  destruct (agg_sources sel now srcs []) as [acc|e] eqn:Ea; cbn in H; [|discriminate].
+  pose proof (agg_sources_spec _ _ _ _ _ Ea (sel s)) as Hk. cbn [alookup] in Hk.
+  rewrite (key_fold_single now sel srcs s r Hn Hl Hu Hf) in Hk. inversion Hk as [Hk'].
+  pose proof (rmap_fin_lookup _ _ _ _ H (sel s)) as Hfin. rewrite <- Hk' in Hfin. destruct Hfin as (t & Ft & Lt).
+  rewrite Lt. f_equal. unfold finalize in Ft. rewrite (avg_not_sum _ Hty), Hty in Ft. cbn [a_count a_work] in Ft.
+  change (0 <? 1)%Z with true in Ft. cbn iota in Ft. rewrite (merged_single r Hne Hlen) in Ft. fold vs in Ft.
+  rewrite (pct_list_map vs pcts (sortQ_nonempty _ Hne) Hp) in Ft. cbn in Ft. inversion Ft. reflexivity.
+Qed.
+
+Lemma fold_plus_bounds : forall (lo hi : Q) l acc,
+  (forall x, In x l -> lo <= x /\ x <= hi) ->
+  acc + inject_Z (zlen l) * lo <= fold_left Qplus l acc /\ fold_left Qplus l acc <= acc + inject_Z (zlen l) * hi.
+Proof.
+  intros lo hi l. induction l as [|x r IH]; intros acc H.
+  - cbn. split; ring_simplify; apply Qle_refl.
+  - cbn [fold_left]. destruct (IH (acc + x)) as [A B]; [intros y Hy; apply H; right; exact Hy|].
+    destruct (H x (or_introl eq_refl)) as [X0 X1].
+    assert (E : inject_Z (zlen (x :: r)) == inject_Z (zlen r) + 1).
+    { unfold zlen. cbn [length]. rewrite Nat2Z.inj_succ, <- Z.add_1_r, inject_Z_plus. reflexivity. }
+    rewrite E. set (N := inject_Z (zlen r)) in *. split; nra.
+Qed.
+
+Lemma mean_bounds : forall vs lo hi,
+  vs <> [] -> (forall x, In x vs -> lo <= x /\ x <= hi) -> lo <= mean vs /\ mean vs <= hi.
+Proof.
+  intros vs lo hi Hne H. unfold mean. destruct vs as [|x r]; [congruence|]. set (vs := x :: r) in *.
+  rewrite Qred_correct. destruct (fold_plus_bounds lo hi vs 0 H) as [A B]. fold (sumQ vs) in A, B.
+  assert (P : 0 < inject_Z (zlen vs)).
+  { change 0 with (inject_Z 0). rewrite <- Zlt_Qlt. pose proof (zlen_pos vs Hne). lia. }
+  split.
+  - apply Qle_shift_div_l; [exact P|]. nra.
+  - apply Qle_shift_div_r; [exact P|]. nra.
+Qed.
+
+Lemma pval_bounds : forall vs p lo hi,
+  vs <> [] -> 0 <= p -> p <= 1 -> (forall x, In x vs -> lo <= x /\ x <= hi) -> lo <= pval vs p /\ pval vs p <= hi.
+Proof.
+  intros vs p lo hi Hne H0 H1 Hb. destruct (pct_k_range _ p (zlen_pos vs Hne) H0 H1) as [K0 K1].
+  apply interp_bounds; assumption.
+Qed.
+
+Lemma pval_mono : forall vs p p',
+  sorted_nth vs -> vs <> [] -> 0 <= p -> p <= p' -> p' <= 1 -> pval vs p <= pval vs p'.
+Proof.
+  intros vs p p' Hs Hne H0 Hpp H1.
+  assert (H1' : p <= 1) by (apply Qle_trans with p'; assumption).
+  assert (H0' : 0 <= p') by (apply Qle_trans with p; assumption).
+  destruct (pct_k_range _ p (zlen_pos vs Hne) H0 H1') as [K0 K1].
+  destruct (pct_k_range _ p' (zlen_pos vs Hne) H0' H1) as [K0' K1'].
+  apply interp_mono; try assumption.
+  assert (H : 0 <= inject_Z (zlen vs - 1)).
+  { change 0 with (inject_Z 0). rewrite <- Zle_Qle. pose proof (zlen_pos vs Hne). lia. }
+  nra.
+Qed.
+
+(* ---- well-typed histories never raise ------------------------------------------------------- *)
+Definition typed_label (types : list (Z * Z)) (l : label) : Prop :=
+  match label_metric l with
+  | Some m => match alookup Z.eqb m types with
+              | Some ty => label_kind l = Some (kind_of_type ty)
+              | None => True
+              end
+  | None => True
+  end.
+Definition typed (types : list (Z * Z)) (ops : list label) : Prop := Forall (typed_label types) ops.
+
+Definition series_ok (k : kind) (srcs : series) : Prop :=
+  match k with KSample => all_res srcs | _ => all_num srcs end.
+
+Definition entry_ok (types : list (Z * Z)) (ms : Z * series) : Prop :=
+  match alookup Z.eqb (fst ms) types with
+  | Some ty => series_ok (kind_of_type ty) (snd ms)
+  | None => True
+  end.
+Definition data_ok (types : list (Z * Z)) (data : list (Z * series)) : Prop := Forall (entry_ok types) data.
+
+Lemma get_series_ok : forall types st m ty,
+  data_ok types (st_data st) -> alookup Z.eqb m types = Some ty -> series_ok (kind_of_type ty) (get_series st m).
+Proof.
+  intros types st m ty H Hty. unfold get_series. destruct (alookup Z.eqb m (st_data st)) as [l|] eqn:E.
+  - apply (alookup_in _ Zeqb_spec) in E. unfold data_ok in H. rewrite Forall_forall in H. specialize (H _ E).
+    unfold entry_ok in H. cbn in H. rewrite Hty in H. exact H.
+  - destruct (kind_of_type ty); constructor.
+Qed.
+
+Lemma series_step_typed : forall cap now l srcs k,
+  label_kind l = Some k -> series_ok k srcs ->
+  series_ok k (fst (series_step cap now l srcs)) /\ snd (series_step cap now l srcs) <> ErrType /\
+  snd (series_step cap now l srcs) <> ErrAttr.
+Proof.
+  intros cap now l srcs k Hk Hs. destruct l; cbn in Hk; inversion Hk; subst k; cbn [series_ok] in *; cbn [series_step].
+  - destruct (all_num_cur_cell s _ Hs) as [q ->]. cbn. split; [|split; discriminate].
+    apply (Forall_aset _ src_eqb_spec); [cbn; eauto|exact Hs].
+  - cbn. split; [|split; discriminate]. apply (Forall_aset _ src_eqb_spec); [cbn; eauto|exact Hs].
+  - destruct (all_res_cur_cell s _ Hs) as [[r ->]| ->].
+    + destruct (sample cap now r v rnd) as [r'|]; cbn; (split; [|split; discriminate]); [|exact Hs].
+      apply (Forall_aset _ src_eqb_spec); [cbn; eauto|exact Hs].
+    + change (Qeq_bool 0 0) with true. cbn iota.
+      destruct (sample cap now (fresh_reservoir now) v rnd) as [r'|]; cbn; (split; [|split; discriminate]); [|exact Hs].
+      apply (Forall_aset _ src_eqb_spec); [cbn; eauto|exact Hs].
+Qed.
+
+Lemma step_typed : forall cap types st l,
+  typed_label types l -> data_ok types (st_data st) ->
+  data_ok types (st_data (fst (step cap st l))) /\
+  (forall m ty, label_metric l = Some m -> alookup Z.eqb m types = Some ty ->
+                snd (step cap st l) <> ErrType /\ snd (step cap st l) <> ErrAttr).
+Proof.
+  intros cap types st l Ht Hd. unfold step. unfold typed_label in Ht. destruct (label_metric l) as [m|] eqn:Em.
+  - destruct (series_step cap (st_now st) l (get_series st m)) as [srcs' o] eqn:Es.
+    destruct (alookup Z.eqb m types) as [ty|] eqn:Ety.
+    + destruct (series_step_typed cap (st_now st) l (get_series st m) _ Ht (get_series_ok _ _ _ _ Hd Ety)) as (A & B & C).
+      rewrite Es in A, B, C. cbn [fst snd] in A, B, C. destruct o; cbn [fst snd]; try congruence.
+      * split; [|intros; split; discriminate]. apply (Forall_aset _ Zeqb_spec); [|exact Hd]. unfold entry_ok. cbn. rewrite Ety. exact A.
+      * split; [exact Hd|intros; split; discriminate].
+    + split; [|intros m' ty' Hm Hty; inversion Hm; subst m'; congruence].
+      destruct o; cbn [fst st_data]; try exact Hd.
+      apply (Forall_aset _ Zeqb_spec); [|exact Hd]. unfold entry_ok. cbn. rewrite Ety. exact I.
+  - split; [|intros; discriminate]. destruct l; exact Hd.
+Qed.
+
+Lemma exec_typed : forall cap types ops st,
+  typed types ops -> data_ok types (st_data st) -> data_ok types (st_data (exec cap st ops)).
+Proof.
+  intros cap types ops. induction ops as [|l r IH]; intros st Ht Hd; cbn; [exact Hd|].
+  inversion Ht; subst. apply IH; [assumption|]. apply step_typed; assumption.
+Qed.
+
+(* Aggregate on well-typed data *)
+Definition agg_num_ok (ka : key * aggst) : Prop := exists w n, snd ka = {| a_work := WNum w; a_count := n |} /\ (1 <= n)%Z.
+Definition agg_list_ok (ka : key * aggst) : Prop := exists l n, snd ka = {| a_work := WList l; a_count := n |}.
+
+Lemma agg_sources_num_ok : forall sel now srcs acc,
+  all_num srcs -> Forall agg_num_ok acc ->
+  exists out, agg_sources sel now srcs acc = ROk out /\ Forall agg_num_ok out.
+Proof.
+  intros sel now srcs. induction srcs as [|[s c] r IH]; intros acc Hn Ha; cbn; [eauto|].
+  inversion Hn as [|x l [q Hq] Hr]; subst. cbn in Hq. subst c.
+  assert (E : exists w n, match alookup key_eqb (sel s) acc with Some a => a | None => new_agg (Num q) end =
+                          {| a_work := WNum w; a_count := n |} /\ (0 <= n)%Z).
+  { destruct (alookup key_eqb (sel s) acc) as [a|] eqn:El.
+    - apply (alookup_in _ key_eqb_spec) in El. rewrite Forall_forall in Ha. destruct (Ha _ El) as (w & n & E & Hc).
+      cbn in E. exists w, n. split; [exact E|lia].
+    - exists 0, 0%Z. split; [reflexivity|lia]. }
+  destruct E as (w & n & -> & Hc). cbn. apply IH; [exact Hr|].
+  apply (Forall_aset _ key_eqb_spec); [|exact Ha]. exists (Qred (w + q)), (n + 1)%Z. split; [reflexivity|lia].
+Qed.
+
+Lemma agg_sources_list_ok : forall sel now srcs acc,
+  all_res srcs -> Forall agg_list_ok acc ->
+  exists out, agg_sources sel now srcs acc = ROk out /\ Forall agg_list_ok out.
+Proof.
+  intros sel now srcs. induction srcs as [|[s c] r IH]; intros acc Hn Ha; cbn; [eauto|].
+  inversion Hn as [|x l [rr Hq] Hr]; subst. cbn in Hq. subst c.
+  assert (E : exists l n, match alookup key_eqb (sel s) acc with Some a => a | None => new_agg (Res rr) end =
+                          {| a_work := WList l; a_count := n |}).
+  { destruct (alookup key_eqb (sel s) acc) as [a|] eqn:El.
+    - apply (alookup_in _ key_eqb_spec) in El. rewrite Forall_forall in Ha. destruct (Ha _ El) as (l & n & E). cbn in E. eauto.
+    - exists [], 0%Z. reflexivity. }
+  destruct E as (l & n & ->). cbn. destruct (now - r_last rr <? MAX_AGG_AGE)%Z; cbn; apply IH; try exact Hr;
+    (apply (Forall_aset _ key_eqb_spec); [|exact Ha]); unfold agg_list_ok; cbn; eauto.
+Qed.
+
+Lemma pct_list_ok : forall pcts vs, Forall (fun p => 0 <= p /\ p <= 1) pcts -> exists ps, pct_list pcts vs = ROk ps.
+Proof.
+  intros pcts vs H. destruct vs as [|x r].
+  - rewrite pct_list_nil. eauto.
+  - rewrite (pct_list_map (x :: r) pcts); [eauto|discriminate|exact H].
+Qed.
+
+Lemma kind_sample_avg : forall ty, kind_of_type ty = KSample <-> is_avg_type ty = true.
+Proof.
+  intros ty. unfold kind_of_type, is_avg_type. destruct (ty =? T_Gauge)%Z eqn:E.
+  - apply Z.eqb_eq in E. subst ty. cbn. split; discriminate.
+  - destruct ((ty =? T_AverageTimer)%Z || (ty =? T_AverageRate)%Z); split; congruence.
+Qed.
+
+Lemma agg_metric_ok : forall sel now pcts ty srcs,
+  Forall (fun p => 0 <= p /\ p <= 1) pcts -> series_ok (kind_of_type ty) srcs ->
+  exists out, agg_metric sel now pcts ty srcs = ROk out.
+Proof.
+  intros sel now pcts ty srcs Hp Hs. rewrite agg_metric_unfold. destruct (kind_of_type ty) eqn:Ek.
+  1, 2: assert (Ha : is_avg_type ty = false)
+    by (destruct (is_avg_type ty) eqn:E; [apply kind_sample_avg in E; congruence|reflexivity]);
+    cbn in Hs; destruct (agg_sources_num_ok sel now srcs [] Hs (Forall_nil _)) as (acc & -> & Hacc); cbn [rbind];
+    apply rmap_ok; intros [k a] Hin; rewrite Forall_forall in Hacc; destruct (Hacc _ Hin) as (w & n & E & Hc); cbn in E; subst a;
+    unfold fin_entry, finalize; cbn [snd fst a_work a_count]; rewrite Ha;
+    replace (n =? 0)%Z with false by (symmetry; apply Z.eqb_neq; lia);
+    destruct (is_sum_type ty); cbn; eauto.
+  assert (Ha : is_avg_type ty = true) by (apply kind_sample_avg; exact Ek).
+  cbn in Hs. destruct (agg_sources_list_ok sel now srcs [] Hs (Forall_nil _)) as (acc & -> & Hacc). cbn [rbind].
+  apply rmap_ok. intros [k a] Hin. rewrite Forall_forall in Hacc. destruct (Hacc _ Hin) as (l & n & E). cbn in E. subst a.
+  unfold fin_entry, finalize. cbn [snd fst a_work a_count]. rewrite (avg_not_sum _ Ha), Ha.
+  destruct (0 <? n)%Z.
+  - destruct (pct_list_ok pcts (merged_values l n) Hp) as [ps ->]. cbn. eauto.
+  - destruct (pct_list_ok pcts [] Hp) as [ps ->]. cbn. eauto.
+Qed.
+
+Lemma aggregate_ok : forall sel now pcts types data,
+  Forall (fun p => 0 <= p /\ p <= 1) pcts -> data_ok types data ->
+  exists out, aggregate sel now pcts types data = ROk out.
+Proof.
+  intros sel now pcts types data Hp. induction data as [|[m srcs] r IH]; intros Hd; cbn; [eauto|].
+  inversion Hd as [|x l Hx Hr]; subst. destruct (IH Hr) as [xs Exs]. unfold entry_ok in Hx. cbn in Hx.
+  destruct (alookup Z.eqb m types) as [ty|]; [|eauto].
+  destruct (agg_metric_ok sel now pcts ty srcs Hp Hx) as [x ->]. cbn. rewrite Exs. cbn. eauto.
+Qed.
+
+(* ---- the reservoir -------------------------------------------------------------------------- *)
+Lemma in_tl : forall {A} (l : list A) x, In x (tl l) -> In x l.
+Proof. intros A [|a l] x H; [exact H|right; exact H]. Qed.
+
+Lemma zlen_app1 : forall {A} (l : list A) v, zlen (l ++ [v]) = (zlen l + 1)%Z.
+Proof. intros. unfold zlen. rewrite app_length. cbn. lia. Qed.
+
+Lemma push_in : forall cap data v x, In x (push cap data v) -> In x data \/ x = v.
+Proof.
+  intros cap data v x. unfold push. intros H.
+  assert (H' : In x (data ++ [v])) by (destruct (cap <? zlen (data ++ [v]))%Z; [apply in_tl|]; exact H).
+  apply in_app_iff in H'. destruct H' as [H'|[H'|[]]]; auto.
+Qed.
+
+Lemma push_len : forall cap data v, (zlen data <= cap)%Z -> (zlen (push cap data v) <= cap)%Z.
+Proof.
+  intros cap data v H. unfold push. destruct (Z.ltb_spec cap (zlen (data ++ [v]))) as [L|L]; [|exact L].
+  rewrite zlen_app1 in L. destruct data as [|a d]; cbn [app tl].
+  - unfold zlen in *. cbn in *. lia.
+  - rewrite zlen_app1. unfold zlen in *. cbn [length] in H. lia.
+Qed.
+
+Lemma push_nonempty : forall cap data v, (1 <= cap)%Z -> push cap data v <> [].
+Proof.
+  intros cap data v Hc. unfold push. destruct (Z.ltb_spec cap (zlen (data ++ [v]))) as [L|L].
+  - rewrite zlen_app1 in L. destruct data as [|a d]; [unfold zlen in L; cbn in L; lia|]. cbn. destruct d; discriminate.
+  - destruct data; discriminate.
+Qed.
+
+Definition res_inv (cap : Z) (r : reservoir) : Prop :=
+  (zlen (r_data r) <= cap)%Z /\ (0 <= r_i r)%Z /\ ((0 < r_i r)%Z -> r_data r <> []).
+
+Lemma fresh_inv : forall cap now, (0 <= cap)%Z -> res_inv cap (fresh_reservoir now).
+Proof. intros cap now H. unfold res_inv, fresh_reservoir, zlen. cbn. repeat split; lia. Qed.
+
+Lemma sample_inv : forall cap now r v rnd r',
+  (1 <= cap)%Z -> res_inv cap r -> sample cap now r v rnd = Some r' ->
+  res_inv cap r' /\ r_data r' <> [] /\ (forall x, In x (r_data r') -> In x (r_data r) \/ x = v).
+Proof.
+  intros cap now r v rnd r' Hc (I1 & I2 & I3) H. unfold sample in H.
+  assert (P : res_inv cap {| r_data := push cap (r_data r) v; r_i := r_i r + 1; r_last := now |} /\
+              push cap (r_data r) v <> [] /\ (forall x, In x (push cap (r_data r) v) -> In x (r_data r) \/ x = v)).
+  { split; [|split; [apply push_nonempty; exact Hc|apply push_in]]. unfold res_inv. cbn.
+    split; [apply push_len; exact I1|]. split; [lia|]. intros _. apply push_nonempty. exact Hc. }
+  destruct (Z.ltb_spec (r_i r) cap) as [L|L].
+  - destruct rnd; [discriminate|]. inversion H; subst r'. exact P.
+  - destruct rnd as [j|]; [|discriminate]. destruct (Qle_bool 0 j && Qlt_bool j 1); [|discriminate].
+    destruct (Qlt_bool j P_KEEP); inversion H; subst r'; [exact P|]. cbn.
+    assert (N : r_data r <> []) by (apply I3; lia). split; [|split; [exact N|auto]].
+    unfold res_inv. cbn. split; [exact I1|]. split; [lia|]. intros _. exact N.
+Qed.
+
+Fixpoint sampled (m : Z) (ops : list label) : list (source * Q) :=
+  match ops with
+  | [] => []
+  | Sample m' s v _ :: r => if Z.eqb m m' then (s, v) :: sampled m r else sampled m r
+  | _ :: r => sampled m r
+  end.
+
+Definition res_series (cap : Z) (P : source -> Q -> Prop) (srcs : series) : Prop :=
+  Forall (fun sc : source * cell => exists r, snd sc = Res r /\ res_inv cap r /\ r_data r <> [] /\
+                                   forall x, In x (r_data r) -> P (fst sc) x) srcs.
+
+Lemma res_series_weaken : forall cap (P P' : source -> Q -> Prop) srcs,
+  (forall s x, P s x -> P' s x) -> res_series cap P srcs -> res_series cap P' srcs.
+Proof.
+  intros cap P P' srcs H Hs. unfold res_series in *. eapply Forall_impl; [|exact Hs]. intros [s c] (r & E & I & N & X).
+  exists r. split; [exact E|]. split; [exact I|]. split; [exact N|]. intros x Hx. apply H. apply X. exact Hx.
+Qed.
+
+Lemma res_series_lookup : forall cap P srcs s,
+  res_series cap P srcs ->
+  match alookup src_eqb s srcs with
+  | Some c => exists r, c = Res r /\ res_inv cap r /\ r_data r <> [] /\ forall x, In x (r_data r) -> P s x
+  | None => True
+  end.
+Proof.
+  intros cap P srcs s H. destruct (alookup src_eqb s srcs) as [c|] eqn:E; [|exact I].
+  apply (alookup_in _ src_eqb_spec) in E. unfold res_series in H. rewrite Forall_forall in H. apply (H _ E).
+Qed.
+
+Lemma exec_sample_inv : forall cap m ops st (P : source -> Q -> Prop),
+  (1 <= cap)%Z -> sample_only m ops -> res_series cap P (get_series st m) ->
+  res_series cap (fun s x => P s x \/ In (s, x) (sampled m ops)) (get_series (exec cap st ops) m).
+Proof.
+  intros cap m ops. induction ops as [|l r IH]; intros st P Hc Hs Hi.
+  - cbn. apply (res_series_weaken cap P); [auto|exact Hi].
+  - inversion Hs as [|l' r' Hl Hr]; subst. cbn [exec].
+    set (P' := fun s x => P s x \/ In (s, x) (sampled m [l])).
+    assert (S : res_series cap P' (get_series (fst (step cap st l)) m)).
+    { rewrite get_series_step. destruct (on_metric l m) eqn:E.
+      - destruct (Hl eq_refl) as (s & v & rnd & ->). cbn [series_step].
+        pose proof (res_series_lookup cap P _ s Hi) as L. unfold cur_cell.
+        assert (W : res_series cap P' (get_series st m)) by (apply (res_series_weaken cap P); [unfold P'; auto|exact Hi]).
+        assert (G : forall r0, res_inv cap r0 -> (forall x, In x (r_data r0) -> P s x) ->
+                    res_series cap P' (fst match sample cap (st_now st) r0 v rnd with
+                                           | Some r' => (aset src_eqb s (Res r') (get_series st m), OK)
+                                           | None => (get_series st m, BadRnd)
+                                           end)).
+        { intros r0 I0 X0. destruct (sample cap (st_now st) r0 v rnd) as [r'|] eqn:Es; cbn [fst]; [|exact W].
+          destruct (sample_inv _ _ _ _ _ _ Hc I0 Es) as (I' & N' & X').
+          apply (Forall_aset _ src_eqb_spec); [|exact W]. exists r'. cbn [fst snd]. split; [reflexivity|]. split; [exact I'|]. split; [exact N'|].
+          intros x Hx. unfold P'. destruct (X' x Hx) as [Hx'| ->]; [left; apply X0; exact Hx'|].
+          right. cbn. rewrite Z.eqb_refl. left. reflexivity. }
+        destruct (alookup src_eqb s (get_series st m)) as [c|].
+        + destruct L as (r0 & -> & I0 & N0 & X0). apply G; assumption.
+        + change (Qeq_bool 0 0) with true. cbn iota. apply G; [apply fresh_inv; lia|intros x []].
+      - apply (res_series_weaken cap P); [unfold P'; auto|exact Hi]. }
+    apply (res_series_weaken cap (fun s x => P' s x \/ In (s, x) (sampled m r))); [|apply IH; assumption].
+    intros s x [[H|H]|H]; [left; exact H| |].
+    + right. destruct l; cbn in H; try destruct H. cbn. destruct (Z.eqb m m0); [|destruct H].
+      destruct H as [H|[]]. left. exact H.
+    + right. destruct l; cbn; try exact H. destruct (Z.eqb m m0); [right|]; exact H.
+Qed.
